@@ -190,6 +190,12 @@ def shape_list(tier):
     add(("or", ("and", G, T), ("cmp", "==", SA, ("lit", 0))), False)
     add(("and", ("cmp", "==", SA, ("a", y)), ("truthy", ("sa", y))), False)
     add(("and", T, ("cmp", "==", SA, ("a", y))), False)
+    # conjunction chains inside an else-if, and an else-if whose sides mention the same variables in another order
+    B_ = lambda v, op, i=0: ("cmp", op, ("b", v), ("lit", i))
+    add(("or", ("and", ("and", X[1], B_(x, ">")), ("cmp", "<=", ("a", x), ("b", x))), X[0]))
+    add(("or", X[0], ("and", ("and", X[1], B_(x, ">")), ("cmp", "<=", ("a", x), ("b", x)))), False)
+    add(("or", ("cmp", ">", ("a", x), ("a", y)), ("cmp", ">", ("b", y), ("b", x))))
+    add(("not", ("and", ("cmp", ">", ("a", x), ("a", y)), ("cmp", ">", ("b", y), ("b", x)))), False)
     # depth 3
     small = [(X[0], X[1]), (X[0], Y[0]), (XY[0], X[1]), (X[1], XY[1])]
     for (l, r) in small:
@@ -237,7 +243,7 @@ def make_cases(tier, count=False, fragment=None):
         for sel in selections(cond, extra=core):
             for veq in (False, True):
                 f = features(cond)
-                if veq and (f & {"kidv", "val0", "m", "p2", "the", "s"} or not core):
+                if veq and (f & {"kidv", "val0", "m", "p2", "the", "s", "t"} or not core):
                     continue
                 name = "%s(%s|%s)%s" % (sel[0], ",".join(sel[1]), show(cond), "|value-eq" if veq else "")
                 if name in seen:
@@ -317,12 +323,55 @@ def int_harness(name, N):
     return h
 
 
+# ---- domains of plain Python values (the elements themselves are concrete; which ones and the literal are symbolic) ----
+PLAIN = [-2, -1, 0, 1, True, False, 2, 2**61 - 1]  # contains distinct objects that are equal and / or hash alike (floats: not with symbolic literals)
+
+
+def plain_harness(kind, n_elems):
+    def h(ctx):
+        picks = []
+        for i in range(n_elems):
+            lo = (picks[-1] + 1) if picks else 0
+            if lo >= len(PLAIN):
+                ctx.assume(False)
+            picks.append(lo + ctx.choice("e%d" % i, len(PLAIN) - lo))  # strictly increasing: distinct pool entries
+        dom = [PLAIN[i] for i in picks]
+        k = ctx.fresh_int("k")
+        n = let(object, dom, name="n")
+        if kind == "n<=k":
+            cond, truth = (n <= k), (lambda v: v <= k)
+        elif kind == "not(n<k)":
+            cond, truth = not_(n < k), (lambda v: NOT(v < k))
+        else:  # every element
+            cond, truth = None, (lambda v: True)
+        rows, crash = [], None
+        try:
+            for r in an(entity(n, *(() if cond is None else (cond,)))).evaluate():
+                rows.append(next((j for j, d in enumerate(dom) if d is r), -1))
+        except Exception as e:
+            crash = "%s: %s" % (type(e).__name__, str(e)[:80])
+        ctx.observe([repr(d) for d in dom], rows, crash)
+        ctx.note("nonempty", bool(rows))
+        if crash is not None:
+            return {"no-exception": False}
+        t = [truth(d) for d in dom]
+        v = {"rows-are-domain-elements": all(j >= 0 for j in rows)}
+        v["sound"] = AND([t[j] for j in set(rows) if j >= 0]) if rows else True
+        v["complete"] = AND([IMPLIES(t[j], j in rows) for j in range(len(dom))])
+        v["each-element-once"] = len(set(rows)) == len(rows)
+        return v
+
+    return h
+
+
 def cases(tier, seed):
     from vlib.core import select_cases
 
     N = 2 if tier == "quick" else 3
     ints = [Case("entity(n:int|%s)|N<=%d" % (nm, N), int_harness(nm, N), key="entity(n:int|%s)" % nm, reset=eql_reset, validate=1, core=True) for nm in INT_SHAPES]
-    return select_cases(make_cases(tier), tier, seed, extra_quick=40) + ints
+    plains = [Case("entity(n:plain values|%s)|%d elements" % (kd, m), plain_harness(kd, m), key="entity(n:plain|%s|%d)" % (kd, m), reset=eql_reset, validate=1, core=True)
+              for kd in ("all", "n<=k", "not(n<k)") for m in ((2, 3) if tier != "quick" or kd != "not(n<k)" else (2,))]
+    return select_cases(make_cases(tier), tier, seed, extra_quick=40) + ints + plains
 
 
 def describe(tier):
@@ -330,7 +379,7 @@ def describe(tier):
     return dict(
         rule="query shapes from the grammar cond ::= atom | and_ | or_ | not_ | exists | for_all (depth <= 3) over variables x, y, z (P objects) and w (Q pool), "
         "atoms: comparisons of attributes / attribute chains / indexed / called values with symbolic literals or other variables' attributes, in_, contains, "
-        "HasType, a Predicate subclass, a nested the(...) sub-query, an expression on its own as a condition (its truth value; one shared attribute node, or a variable over plain ints), order comparisons over a partially ordered attribute (sets); each with every selection (entity(x), entity(y), set_of([x,y]), unmentioned selected "
+        "HasType, a Predicate subclass, a nested the(...) sub-query, an expression on its own as a condition (its truth value; one shared attribute node, or a variable over plain ints), order comparisons over a partially ordered attribute (sets) and a sequence-valued attribute (tuples, lexicographic), variables over domains of plain values drawn from a pool with equal / equally hashing distinct objects (-1/-2, 1/True, 0/False, 2**61-1); each with every selection (entity(x), entity(y), set_of([x,y]), unmentioned selected "
         "variable, set_of([x, x.kid])); identity-eq and value-eq dataclasses; quick = core set + seeded slice, thorough = all; "
         "non-trivial = >= 2 feasible paths and a non-empty result on some path",
         bounds=dict(objects_per_domain="0..%d (symbolic)" % N, attribute_values_and_literals="unbounded integers", depth="<= 3", variables="<= 3 + quantified"),
